@@ -178,19 +178,41 @@ def graded_chop(draw, preserve: Optional[str] = None) -> Dict[str, Any]:
     return args
 
 
-def draw_arcs(draw, case, max_arcs: int = 2) -> List[Dict[str, Any]]:
+def shared_edges(case, gdir: Optional[int] = None) -> List[Tuple[int, int, List[int]]]:
+    """lattice edges (node pair) that belong to >= 2 selected cells: [(n1, n2, [cells])], optionally of one direction"""
+    dims = case["dims"]
+    users: Dict[Tuple[int, int], List[int]] = {}
+    for c in case["cells"]:
+        nodes = cell_nodes(dims, c)
+        for ax in (0, 1, 2):
+            if gdir is not None and ax != gdir:
+                continue
+            for i, j in HEX_EDGES_BY_AXIS[ax]:
+                users.setdefault((nodes[i], nodes[j]), []).append(c)
+    return [(k[0], k[1], v) for k, v in sorted(users.items()) if len(v) >= 2]
+
+
+def draw_arcs(draw, case, max_arcs: int = 2, min_arcs: int = 0, prefer_shared: bool = False) -> List[Dict[str, Any]]:
     """0-2 circular-arc edges on lattice edges of selected cells; the arc point is the edge's midpoint displaced
     perpendicular to the edge by 5-30 % of its length (far from a half circle), declared on one of the blocks that
-    contain the edge."""
+    contain the edge (prefer_shared: mostly on edges that belong to several blocks, declared by a drawn one of them)."""
     dims = case["dims"]
     pos = node_positions(case)
     out = []
     seen = set()
-    for _ in range(draw(st.integers(0, max_arcs))):
-        c = draw(st.sampled_from(case["cells"]))
-        nodes = cell_nodes(dims, c)
-        i, j = draw(st.sampled_from([e for ax in (0, 1, 2) for e in HEX_EDGES_BY_AXIS[ax]]))
-        n1, n2 = nodes[i], nodes[j]
+    shared = shared_edges(case) if prefer_shared else []
+    for _ in range(draw(st.integers(min_arcs, max_arcs))):
+        owner_cell = None
+        if shared and draw(st.integers(0, 3)) > 0:
+            n1, n2, cells = draw(st.sampled_from(shared))
+            owner_cell = draw(st.sampled_from(cells))
+            if draw(st.booleans()):
+                n1, n2 = n2, n1
+        else:
+            c = draw(st.sampled_from(case["cells"]))
+            nodes = cell_nodes(dims, c)
+            i, j = draw(st.sampled_from([e for ax in (0, 1, 2) for e in HEX_EDGES_BY_AXIS[ax]]))
+            n1, n2 = nodes[i], nodes[j]
         if frozenset((n1, n2)) in seen:
             continue
         seen.add(frozenset((n1, n2)))
@@ -202,6 +224,8 @@ def draw_arcs(draw, case, max_arcs: int = 2) -> List[Dict[str, Any]]:
         perp = perp / np.linalg.norm(perp)
         frac = draw(st.floats(0.05, 0.3)) * draw(st.sampled_from([1, -1]))
         out.append({"nodes": [n1, n2], "bulge": (perp * frac * np.linalg.norm(chord)).tolist(), "owner": draw(st.integers(0, 3))})
+        if owner_cell is not None:
+            out[-1]["owner_cell"] = owner_cell
     return out
 
 
@@ -387,6 +411,9 @@ def build(case, with_chops: bool = True) -> Built:
         if not owners:
             continue
         oi = owners[arc.get("owner", 0) % len(owners)]
+        if arc.get("owner_cell") in [b.cells[o] for o in owners]:
+            # the declaring operation is named by lattice cell (stays the same when the insertion order is permuted)
+            oi = b.cells.index(arc["owner_cell"])
         nodes = cell_nodes(dims, b.cells[oi])
         perm = ROT[case["orient"][oi]]
         local = {nodes[perm[i]]: i for i in range(8)}
